@@ -32,6 +32,10 @@ type verifFSys struct {
 	nodes  map[string]*verifNode
 	paths  []string // sorted
 	armed  bool
+	// failWrite > 0: exactly that write call (1-based, counted over all files) fails with an I/O error
+	// after storing nothing (disk full, medium error); writes counts them
+	failWrite int
+	writes    int
 	frozen *verifFSys
 	muts   int
 }
@@ -128,6 +132,10 @@ func (h *verifFile) Write(b []byte) (int, error) {
 	}
 	f := h.fsys
 	f.muts++
+	f.writes++
+	if f.writes == f.failWrite {
+		return 0, verifErrIO
+	}
 	if f.armed && f.frozen == nil && len(b) > 0 {
 		// torn write: the image holds the first k bytes of this write (k = 0: crash just before it)
 		cuts := []int{0}
@@ -152,6 +160,8 @@ func (h *verifFile) Write(b []byte) (int, error) {
 	h.pos += int64(len(b))
 	return len(b), nil
 }
+
+var verifErrIO = errors.New("verif fs: no space left on device")
 
 func verifWriteAt(data []byte, pos int64, b []byte) []byte {
 	for int64(len(data)) < pos {
